@@ -364,30 +364,41 @@ def powell_keeps_linesearch_pair(ctx):
               '_linesearch_powell#return', 'returns (fret, p + alpha_min*xi, alpha_min*xi) of one brent call on myfunc',
               '_linesearch_powell returns %s' % T.show(ret)[:200], f, f.node.body[-1])
     alpha = my.args()[0]
-    mret = [s for s in my.node.body if isinstance(s, ast.Return)]
-    ctx.need(mret, 'myfunc has no return')
-    mt = t(mret[0].value)
+    mrt = return_terms(my.node)
+    ctx.need(mrt, 'myfunc has no return')
     want = ('call', ('name', fn), (T.simp(T.padd(('name', p), T.pmul(('name', alpha), ('name', xi)))),), ())
-    ctx.check(mt == want, '_linesearch_powell.myfunc', 'myfunc(alpha) = func(p + alpha*xi)', 'myfunc evaluates %s' % T.show(mt), my, mret[0])
-    # _Step: every line search unpacked as (fval, x, direc1)
+    ctx.check(all(x[1] == want for x in mrt), '_linesearch_powell.myfunc', 'myfunc(alpha) = func(p + alpha*xi)',
+              'myfunc evaluates %s' % T.show([x[1] for x in mrt if x[1] != want][0]) if any(x[1] != want for x in mrt) else '', my, my.node)
+    # _Step: every line search is unpacked as (energy, point, direction) with the point variable fed back in, and the
+    # step ends by storing exactly that (point, energy) pair as the best -- roles are taken from the data flow, not from names
     g = ctx.func('mystic.scipy_optimize:PowellDirectionalSolver._Step')
     sn = selfname_of(g)
     ls = [s for s in stmts_of(g.node) if isinstance(s, ast.Assign) and isinstance(s.value, ast.Call) and callee_text(s.value) == '_linesearch_powell']
     ctx.need(len(ls) >= 3, 'expected 3 line searches in Powell _Step, found %d' % len(ls))
+    roles = set()
     for s in ls:
         tg = s.targets[0]
         names = [e.id if isinstance(e, ast.Name) else None for e in getattr(tg, 'elts', [])]
         a = s.value.args
-        good = names[:2] == ['fval', 'x'] and len(a) >= 3 and isinstance(a[0], ast.Name) and a[0].id == 'cost' and \
-            isinstance(a[1], ast.Name) and a[1].id == 'x'
-        ctx.check(good, 'PowellDirectionalSolver._Step#linesearch', 'fval, x, d = _linesearch_powell(cost, x, d, ...)',
+        good = len(names) == 3 and None not in names[:2] and len(a) >= 3 and isinstance(a[0], ast.Name) and \
+            isinstance(a[1], ast.Name) and a[1].id == names[1] and names[0] != names[1]
+        if good:
+            # the function searched along is the decorated objective of this step
+            ds = _local_def(g, a[0].id)
+            good = bool(ds) and all(isinstance(d.value, ast.Call) and self_call(d.value, '_bootstrap_objective', sn) for d in ds)
+            roles.add((names[0], names[1]))
+        ctx.check(good, 'PowellDirectionalSolver._Step#linesearch', 'energy, point, d = _linesearch_powell(objective, point, d, ...)',
                   'a line search result is unpacked as %s from %s' % (names, unparse(s.value)[:80]), g, s)
+    ctx.need(len(roles) == 1, 'Powell _Step: the line searches do not share one (energy, point) pair of variables: %s' % sorted(roles))
+    (ename, xname), = roles
     tail = [s for s in g.node.body if isinstance(s, ast.Assign)]
-    pop = [s for s in tail if ''.join(unparse(s.targets[0]).split()) == '%s.population[0]' % sn]
-    pe = [s for s in tail if ''.join(unparse(s.targets[0]).split()) == '%s.popEnergy[0]' % sn]
-    good = pop and pe and unparse(pop[-1].value) == 'x' and unparse(pe[-1].value) == 'fval'
-    ctx.check(bool(good), 'PowellDirectionalSolver._Step#store', 'population[0] = x and popEnergy[0] = fval at the end of every step',
-              'the step does not end by storing the (x, fval) pair as the best', g, (pop or pe or [g.node])[-1])
+    want_pop = t(ast.parse('%s.population[0]' % sn, mode='eval').body)
+    want_pe = t(ast.parse('%s.popEnergy[0]' % sn, mode='eval').body)
+    pop = [s for s in tail if t(s.targets[0]) == want_pop]
+    pe = [s for s in tail if t(s.targets[0]) == want_pe]
+    good = pop and pe and isinstance(pop[-1].value, ast.Name) and pop[-1].value.id == xname and isinstance(pe[-1].value, ast.Name) and pe[-1].value.id == ename
+    ctx.check(bool(good), 'PowellDirectionalSolver._Step#store', 'population[0] = point and popEnergy[0] = energy of the line searches at the end of every step',
+              'the step does not end by storing the (point, energy) pair of its line searches as the best', g, (pop or pe or [g.node])[-1])
 
 
 WRAPPERS = ['mystic.scipy_optimize:fmin', 'mystic.scipy_optimize:fmin_powell',
@@ -400,34 +411,38 @@ def wrappers_report_solver_state(ctx):
     """fmin/fmin_powell/diffev(2)/lattice/buckshot/sparsity return solver.bestSolution and solver.bestEnergy of the solver they ran"""
     for anchor in WRAPPERS:
         f = ctx.func(anchor)
-        b = T.Builder()
-        solve_seen = False
-        rets = {}
-        for st in f.node.body:
-            if calls_where(st, lambda c: callee_text(c) == 'solver.Solve', include_lambda=False):
-                solve_seen = True
-            if isinstance(st, ast.Assign) and isinstance(st.targets[0], ast.Name) and st.targets[0].id in ('x', 'fval') and solve_seen:
-                b.exec_stmt(st)
-        x, fv = b.env.get('x'), b.env.get('fval')
-        sv = ('name', 'solver')
-        good = x == ('attr', sv, 'bestSolution') and fv == ('attr', sv, 'bestEnergy')
-        # the returned list starts with (x, fval)
-        rl = [s for s in walk_no_nested(f.node) if isinstance(s, ast.Assign) and isinstance(s.targets[0], ast.Name) and s.targets[0].id == 'retlist']
-        shapes = []
-        for s in rl:
-            v = s.value
-            if isinstance(v, ast.Tuple):
-                shapes.append([unparse(e) for e in v.elts[:2]])
-            else:
-                shapes.append([unparse(v)])
-        shape_ok = rl and all(sh[0] == 'x' and (len(sh) < 2 or sh[1] in ('fval', 'allvecs')) for sh in shapes)
-        ctx.check(good and shape_ok, f.qualname, 'x = solver.bestSolution, fval = solver.bestEnergy after Solve; returned first',
-                  'the wrapper returns x=%s fval=%s (shapes %s) instead of the solver\'s best pair' % (
-                      T.show(x) if x else None, T.show(fv) if fv else None, shapes), f, rl[0] if rl else f.node)
+        # what is returned, with the locals substituted along every path of the slice that feeds the return value
+        rts = return_terms(f.node, extra=lambda n: isinstance(n, ast.Call) and isinstance(n.func, ast.Attribute) and n.func.attr == 'Solve')
+        ctx.need(rts, '%s: no return value found' % f.qualname)
+        ctx.stats['paths_enumerated'] += len(rts)
+        bad = None
+        for p, term, b, conds in rts:
+            # the solver the wrapper ran: the receiver of .Solve(...) on this path
+            recv = None
+            for e in p.events:
+                if e[0] == 'stmt':
+                    for c in calls_where(e[1], lambda c: isinstance(c.func, ast.Attribute) and c.func.attr == 'Solve', include_lambda=False):
+                        recv = T.simp(b.t(c.func.value))
+            if recv is None:
+                bad = (p, 'no solver.Solve(...) call precedes the return')
+                break
+            elems = flatten_seq(term)
+            first = elems[0] if elems else term
+            if first != ('attr', recv, 'bestSolution'):
+                bad = (p, 'returns %s where the best solution of the solver it ran belongs' % T.show(first)[:80])
+                break
+            if elems and len(elems) >= 5 and elems[1] != ('attr', recv, 'bestEnergy'):
+                bad = (p, 'full output reports %s as the optimum value instead of the best energy of the solver it ran' % T.show(elems[1])[:80])
+                break
+        ctx.check(bad is None, f.qualname, 'on all %d return paths: solver.bestSolution first, solver.bestEnergy second in the full output, of the solver that ran Solve' % len(rts),
+                  'the wrapper %s (%s)' % (bad[1] if bad else '', bad[0].describe(6) if bad else ''), f, bad[0].exit_node if bad else f.node)
     g = ctx.func('mystic.differential_evolution:diffev2')
-    calls = calls_where(g.node, lambda c: callee_text(c) == 'diffev')
-    ctx.check(len(calls) == 1 and isinstance(parent(calls[0]), ast.Return), 'diffev2', 'diffev2 returns diffev(...) unchanged',
-              'diffev2 no longer returns the result of diffev unchanged', g, g.node)
+    rts = return_terms(g.node)
+    good = bool(rts)
+    for p, term, b, conds in rts:
+        if not (term[0] == 'call' and T.show(term[1]) == 'diffev'):
+            good = False
+    ctx.check(good, 'diffev2', 'diffev2 returns diffev(...) unchanged', 'diffev2 no longer returns the result of diffev unchanged', g, g.node)
 
 
 @rule('C01.g', min_instances=2)
